@@ -408,6 +408,7 @@ func (w *world) get(name string) (*sess, error) {
 		return nil, err
 	}
 	s := &sess{name: name, conn: c, raw: vh.NewRaw(c)}
+	s.raw.Timeout = 15 * time.Second // a loaded machine must not look like a lost response
 	if _, err := s.raw.ReadResp(); err != nil {
 		return nil, fmt.Errorf("greeting: %v", err)
 	}
@@ -901,6 +902,7 @@ func cmdReplay(path string, workers int) {
 	var samples []interface{}
 	taken := map[string]int{}
 	notTaken := map[string]int{}
+	kinds := map[string]int{}
 	var starExample []string
 	for i := 0; i < workers; i++ {
 		wg.Add(1)
@@ -919,6 +921,9 @@ func cmdReplay(path string, workers int) {
 					atomic.AddInt64(&nNontriv, 1)
 				}
 				mu.Lock()
+				if o.steps == len(beh) && o.v == nil && o.notTaken == "" {
+					kinds[beh[len(beh)-1].C.name()]++
+				}
 				for _, t := range o.taken {
 					taken[t]++
 				}
@@ -956,7 +961,7 @@ func cmdReplay(path string, workers int) {
 	wg.Wait()
 	sum := map[string]interface{}{"behaviours": nBeh, "steps": nSteps, "nontrivial": nNontriv, "mismatches": nMis,
 		"samples": samples, "latitude_taken": taken, "latitude_not_taken": notTaken, "branch_not_taken": nNotTaken,
-		"late_idle_wakeups": nLate, "star_rfc_not_taken_example": starExample}
+		"late_idle_wakeups": nLate, "star_rfc_not_taken_example": starExample, "commands": kinds}
 	if err != nil {
 		sum["infra_error"] = err.Error()
 	} else if e := infra.Load(); e != nil {
@@ -1233,7 +1238,7 @@ func cmdRandom(path string, seed int64, traces, steps int) {
 	defer bw.Flush()
 	enc := json.NewEncoder(bw)
 	rng := rand.New(rand.NewSource(seed))
-	total, lost, garbled, idleDeliveries := 0, 0, 0, 0
+	total, lost, garbled, idleDeliveries, foreign := 0, 0, 0, 0, 0
 	kinds := map[string]int{}
 	for t := 0; t < traces; t++ {
 		enc.Encode(rec{Ev: "Reset", Au: []uint32{}})
@@ -1345,6 +1350,15 @@ func cmdRandom(path string, seed int64, traces, steps int) {
 				cl.idle = false
 			}
 			cl.learn(got)
+			switch c.K {
+			case "NOOP", "FETCH", "SEARCH", "STORE", "APPEND", "COPY", "DONE":
+				// an EXPUNGE here reports a removal made through another session
+				for _, it := range got {
+					if it.T == "expunge" {
+						foreign++
+					}
+				}
+			}
 			// what idling sessions received meanwhile
 			for _, x := range names {
 				if x != nm && cls[x].idle {
@@ -1378,7 +1392,7 @@ func cmdRandom(path string, seed int64, traces, steps int) {
 		w.close()
 	}
 	out.Summary(map[string]interface{}{"records": total, "traces": traces, "lost": lost, "garbled_completions": garbled,
-		"idle_deliveries": idleDeliveries, "commands": kinds})
+		"idle_deliveries": idleDeliveries, "commands": kinds, "expunges_of_other_sessions_delivered": foreign})
 }
 
 // ------------------------------------------------------------------ script (diagnosis)
